@@ -103,6 +103,10 @@ func (ctx Ctx) coqTypeOfType(n ast.Node, t types.Type) coq.Type {
 		if t.Obj().Pkg().Name() == "disk" && t.Obj().Name() == "Disk" {
 			return coq.TypeIdent("disk.Disk")
 		}
+		// the emitted type mentions the definition of the named type
+		if t.Obj().Pkg().Path() == ctx.pkgPath {
+			ctx.dep.addDep(t.Obj().Name())
+		}
 		if info, ok := ctx.getStructInfo(t); ok {
 			return coq.StructName(info.name)
 		}
@@ -336,6 +340,10 @@ func (ctx Ctx) getStructInfo(t types.Type) (structTypeInfo, bool) {
 	if t, ok := t.(*types.Named); ok {
 		name := ctx.qualifiedName(t.Obj())
 		if structType, ok := t.Underlying().(*types.Struct); ok {
+			// every use of the struct's info mentions its descriptor
+			if t.Obj().Pkg() != nil && t.Obj().Pkg().Path() == ctx.pkgPath {
+				ctx.dep.addDep(t.Obj().Name())
+			}
 			return structTypeInfo{
 				name:           name,
 				throughPointer: throughPointer,
